@@ -422,7 +422,15 @@ private:
         for (auto &k : w.kept) {
             if (!k.e->hasMemStore()) continue;
             const uint64_t t0 = now();
-            const bool ok = store(t).updateAnchored(*k.e);
+            bool ok = false;
+            try {
+                ok = store(t).updateAnchored(*k.e);
+            } catch (const std::exception &ex) {
+                // e.g. "truncated mem-cached headers": copyFromShm() read anchor.start (none yet) and then anchor.complete() (writer finished in between).
+                // The entry is refused, not served: outside C19's statement (DESIGN.md 8.4/8.7); counted, and the local copy must still not look complete
+                vsim::probe("c19.update_anchored_threw");
+                s_->trace("updateAnchored(key %d) threw: %s", k.key, ex.what());
+            }
             vsim::probe(ok ? "c19.update_anchored_ok" : "c19.update_anchored_failed");
             if (ok) judge(t, k, t0, "updateAnchored");
             else if (k.e->store_status == STORE_OK) s_->viol("failed-but-complete", "updateAnchored(key %d) failed but the entry is marked complete", k.key);
